@@ -387,3 +387,68 @@ Proof.
   split. { unfold focus_ok. rewrite Hpc. reflexivity. }
   unfold done_ok. rewrite F1. reflexivity.
 Qed.
+
+(* the nested walk: on to the next counter, the second loop, or the close *)
+Lemma core3_next ms t ms' t' r c w ws : MW ms -> m_walks t = w :: ws -> w_own w = Some (r, c) ->
+  CIb ms (bview t r c ws) -> NW ms t r c w -> m_pc t = MNext ->
+  mstep_core ms t = (ms', t') -> step3 ms t ms' t'.
+Proof.
+  intros W Hw Ho IB (Gr & NL & RC & _ & g0 & P2 & PG & NN & QC & PH) Hpc H.
+  rewrite Hpc in PH. destruct PH as (pre & SN & SO & IC & WS). pose proof RC as (Hc & Hcl & Hr).
+  pose proof (MW_MS _ W) as S.
+  unfold mstep_core in H. rewrite Hpc in H. injection H as <- <-.
+  destruct w as [rest snap ph own]. cbn [w_own w_rest w_snap w_ph] in *. subst own snap.
+  assert (FINALL : forall j, (j < nc ms)%nat -> t_prev (VF t r c g0 j) = Some g0).
+  { intros j Hj. unfold VF. destruct (Nat.eqb j c) eqn:Ej; [reflexivity|]. apply Nat.eqb_neq in Ej. apply (NN j Hj Ej). }
+  match goal with |- step3 _ _ _ ?T => set (T' := T) end.
+  (* the shape of the result *)
+  assert (SH : (exists c' rest' ph' pre', m_pc T' = MRun /\ m_c T' = c' /\ m_role T' = visit_role (mkW rest' (pre ++ rest) ph' (Some (r, c))) c' /\
+                  m_walks T' = mkW rest' (pre ++ rest) ph' (Some (r, c)) :: ws /\ pre ++ rest = pre' ++ c' :: rest' /\
+                  forall j, (j < nc ms)%nat -> wstate ph' pre' (Some c') rest' (pre ++ rest) j (VF t r c g0 j)) \/
+               (m_pc T' = MClose /\ m_walks T' = mkW rest (pre ++ rest) ph (Some (r, c)) :: ws /\
+                forall j, (j < nc ms)%nat -> t_pc (VF t r c g0 j) = CClose)).
+  { unfold T', advance. rewrite Hw. cbn [w_rest w_snap w_ph w_own].
+    destruct rest as [|c' rest'].
+    - rewrite app_nil_r in *. destruct ph.
+      + destruct pre as [|c' rest']; [destruct IC|].
+        left. exists c', rest', PRef, []. cbn. do 5 (split; [reflexivity|]).
+        intros j Hj. destruct (WS j Hj) as (W1 & W2 & W3 & W4). cbn [wstate]. split; [intros []|].
+        split; [intros X; injection X as <-; rewrite W1 by (left; reflexivity); reflexivity|].
+        split; [intros X; apply W1; right; exact X | exact W4].
+      + right. unfold after_walk. cbn. split; [reflexivity|]. split; [reflexivity|]. intros j Hj. destruct (WS j Hj) as (W1 & _ & _ & W4).
+        assert (F : fin (VF t r c g0 j)) by (destruct (in_dec Nat.eq_dec j pre); auto).
+        unfold fin in F. rewrite (FINALL j Hj) in F. exact F.
+    - left. exists c', rest', ph, pre. cbn. do 5 (split; [reflexivity|]).
+      intros j Hj. destruct ph; cbn [wstate] in WS |- *; destruct (WS j Hj) as (W1 & W2 & W3 & W4);
+        (split; [exact W1|]); (split; [|split; [intros X; apply W3; right; exact X | exact W4]]).
+      + intros X. injection X as <-. left. apply W3. left. reflexivity.
+      + intros X. injection X as <-. rewrite W3 by (left; reflexivity). reflexivity. }
+  assert (TF : m_nest T' = m_nest t /\ m_main T' = m_main t /\ m_redo T' = m_redo t /\
+               m_grown T' = m_grown t /\ m_isadd T' = m_isadd t /\ m_k T' = m_k t /\ m_tgt T' = m_tgt t /\
+               m_wrote T' = m_wrote t /\ m_prev T' = m_prev t).
+  { unfold T', advance, after_walk. rewrite Hw. cbn [w_rest w_snap w_ph w_own]. destruct rest; [destruct ph; [destruct (pre ++ [])|]|]; cbn; repeat split; reflexivity. }
+  destruct TF as (F5 & F6 & F7 & F8 & F9 & F10 & F11 & F12 & F13).
+  assert (GO : gett T' r c = gett t r c) by (destruct r; cbn; rewrite ?F6, ?F7; try reflexivity; destruct Hr).
+  assert (VE : forall j, VF T' r c g0 j = VF t r c g0 j) by (intros j; unfold VF; rewrite GO, F5; reflexivity).
+  assert (LEN : lens_ok ms t = true).
+  { unfold lens_ok. destruct IB as [LB _]. unfold bview in LB. destruct r; try (destruct Hr; fail); cbn in LB; rewrite ?upd_len in LB;
+      rewrite LB, NL; fold (nc ms); rewrite Nat.eqb_refl; reflexivity. }
+  assert (COMMON : forall w', m_walks T' = w' :: ws -> w_own w' = Some (r, c) -> m_pc T' = MRun \/ m_pc T' = MClose ->
+            NW ms T' r c w' -> step3 ms t ms T').
+  { intros w' Hw' Ho' Hp' NW'. right. split; [reflexivity|]. split; [reflexivity|]. split.
+    { unfold T3. rewrite Hw', Ho'. split; [|exact NW'].
+      apply (bview_same ms ms t T'); [apply grows_refl | exact IB|].
+      unfold bview, same_ctl. rewrite GO. destruct r; try (destruct Hr; fail); cbn; rewrite ?F6, ?F7; repeat split; auto. }
+    split; [apply grows_refl|]. split; [exact S|]. split; [exact F9|]. split; [exact F10|]. split; [exact LEN|].
+    split; [unfold focus_ok; rewrite Hpc; reflexivity|]. unfold done_ok. destruct Hp' as [-> | ->]; reflexivity. }
+  destruct SH as [(c' & rest' & ph' & pre' & E1 & E2 & E3 & E4 & E5 & WS')|(E1 & E4 & CL)].
+  - apply (COMMON _ E4 eq_refl (or_introl E1)). unfold NW. rewrite F8, F5, E1, E2, E3, GO. cbn [w_own w_rest w_snap w_ph].
+    split; [exact Gr|]. split; [exact NL|]. split. { unfold rc3. rewrite F6, F9, F10. exact RC. }
+    split; [reflexivity|]. exists g0. split; [exact P2|]. split; [exact PG|]. split; [exact NN|]. split; [exact QC|].
+    exists pre', rest'. split; [reflexivity|]. split; [exact E5|]. split; [exact SO|]. split; [exact IC|]. split; [reflexivity|].
+    intros j Hj. rewrite VE. apply WS'. exact Hj.
+  - apply (COMMON _ E4 eq_refl (or_intror E1)). unfold NW. rewrite F8, F5, E1, GO. cbn [w_own].
+    split; [exact Gr|]. split; [exact NL|]. split. { unfold rc3. rewrite F6, F9, F10. exact RC. }
+    split; [reflexivity|]. exists g0. split; [exact P2|]. split; [exact PG|]. split; [exact NN|]. split; [exact QC|].
+    intros j Hj. rewrite VE. apply CL. exact Hj.
+Qed.
